@@ -294,7 +294,7 @@ def slice_iter(eng, st, site, func, target, args, dty):
     s = as_slice(eng, st, args[0])
     if s is None:
         return None
-    return [(st, VIter("slice", None, 0, s))]
+    return [(st, VIter("slice", s.len, Lin.const(0), s))]
 
 
 @stub(r"^core::slice::<impl \[T\]>::as_(mut_)?ptr$")
@@ -328,6 +328,27 @@ def copy_nonoverlapping(eng, st, site, func, target, args, dty):
         from stubs import patch_segs
         d = slice_desc(eng, st, VSlice(src.base, src.start, n.lin, src.elem))
         st.cells[dst.base] = VVec(tgt.len, patch_segs(eng, st, tgt.segs, dst.start, n.lin, d), None, tgt.name, tgt.elem_ty, tgt.marks)
+    return [(st, UNIT)]
+
+
+@stub(r"^core::slice::<impl \[T\]>::copy_from_slice$|^core::slice::<impl \[T\]>::clone_from_slice$")
+def copy_from_slice(eng, st, site, func, target, args, dty):
+    frame, bb, t = site
+    dst = as_slice(eng, st, args[0])
+    src = as_slice(eng, st, args[1])
+    if dst is None or src is None:
+        return None
+    c = c_eq(dst.len, src.len)
+    ok = eng.ent(st, c)
+    eng.oblig("bounds", frame, bb, eng.callee_label(func), ok, st, None if ok else "copy_from_slice lengths %r / %r not proven equal" % (dst.len, src.len), t.get("ln"))
+    if not ok and not eng.add(st, c):
+        return []
+    d = slice_desc(eng, st, src)
+    st.emit(("copy", dst.base, dst.start, VInt(eng.usize_ty(), src.len), d, site_info(site)))
+    tgt = st.cells.get(dst.base)
+    if isinstance(tgt, VVec):
+        from stubs import patch_segs
+        st.cells[dst.base] = VVec(tgt.len, patch_segs(eng, st, tgt.segs, dst.start, src.len, d), None, tgt.name, tgt.elem_ty, tgt.marks)
     return [(st, UNIT)]
 
 
@@ -817,10 +838,20 @@ def into_iter(eng, st, site, func, target, args, dty):
         return [(st, a)]
     cell, v = get_vec(eng, st, a)
     if v is not None:
-        return [(st, VIter("vec", v.elems, 0, cell))]
+        return [(st, VIter("vec", v.len, Lin.const(0), cell))]
     s = as_slice(eng, st, a)
     if s is not None:
-        return [(st, VIter("slice", None, 0, s))]
+        return [(st, VIter("slice", s.len, Lin.const(0), s))]
+    return None
+
+
+@stub(r"^std::iter::Iterator::zip$")
+def iter_zip(eng, st, site, func, target, args, dty):
+    a, b = args[0], args[1]
+    if isinstance(b, VArr):
+        b = VIter("array", b.elems, 0, b.name)
+    if isinstance(a, VIter) and isinstance(b, VIter) and a.kind == "slice" and b.kind == "slice" and a.pos == b.pos:
+        return [(st, VIter("zip", a.src.len, a.pos, (a.src, b.src)))]
     return None
 
 
@@ -878,8 +909,39 @@ def iter_next(eng, st, site, func, target, args, dty):
                 eng.store(st, loc[0], loc[1], VIter(it.kind, it.items, it.pos + 1, it.src, it.extra))
                 return [(st, mk_option(eng, dty, True, it.items[it.pos]))]
             return [(st, mk_option(eng, dty, False))]
+        if it.kind in ("slice", "zip", "vec") and isinstance(it.pos, Lin):
+            # exact cursor semantics: Some(element at pos) while pos < len
+            if it.kind == "slice":
+                lens = [it.src.len]
+            elif it.kind == "zip":
+                lens = [it.src[0].len, it.src[1].len]
+            else:
+                vv = st.cells.get(it.src)
+                lens = [vv.len] if isinstance(vv, VVec) else None
+            if lens is not None:
+                out = []
+                s_some = st.fork()
+                if all(eng.add(s_some, c_lt(it.pos, ln)) for ln in lens):
+                    if it.kind == "slice":
+                        item = elem_ref(eng, s_some, it.src, it.pos)
+                    elif it.kind == "zip":
+                        item = VAdt(None, Lin.const(0), {0: (elem_ref(eng, s_some, it.src[0], it.pos), elem_ref(eng, s_some, it.src[1], it.pos))})
+                    else:
+                        vv = s_some.cells.get(it.src)
+                        item = eng.unknown_elem(s_some, vv, it.pos)
+                    eng.store(s_some, loc[0], loc[1], VIter(it.kind, it.items, it.pos + 1, it.src, it.extra))
+                    s_some.emit(("range_next", False, VInt(eng.usize_ty(), it.pos), site_info(site)))
+                    s_some.emit(("iter_next", it.kind, (it.src.base if it.kind == "slice" else (it.src[0].base if it.kind == "zip" else it.src)), back, site_info(site)))
+                    out.append((s_some, mk_option(eng, dty, True, item)))
+                # None when some length is exhausted
+                for ln in lens:
+                    s_no = st.fork()
+                    if eng.add(s_no, c_le(ln, it.pos)):
+                        out.append((s_no, mk_option(eng, dty, False)))
+                return out
         # unknown-length finite iterator
-        eng.store(st, loc[0], loc[1], VIter(it.kind, it.items, it.pos + 1, it.src, it.extra))
+        pos2 = (it.pos + 1) if isinstance(it.pos, (int, Lin)) else 0
+        eng.store(st, loc[0], loc[1], VIter(it.kind, it.items, pos2, it.src, it.extra))
         st.emit(("iter_next", it.kind, it.src.base if isinstance(it.src, VSlice) else it.src, back, site_info(site)))
         s_none = st.fork()
         out = [(s_none, mk_option(eng, dty, False))]
